@@ -100,6 +100,12 @@ def EncState.envelope (st : EncState) : Envelope :=
 def encode (c : Codec P) (batch : List (Deliver P)) : Envelope :=
   (batch.foldl (encodeStep c) {}).envelope
 
+/-- what `streamWriter.Invoke` puts on the wire: nothing at all when no message of the batch could be encoded
+    (the stream is not touched then; it may not even exist yet while the writer is still dialing). -/
+def transmit (c : Codec P) (batch : List (Deliver P)) : Option Envelope :=
+  let e := encode c batch
+  if e.messages.isEmpty then none else some e
+
 /-- Go slice indexing with an `int32` index, guarded: `none` when out of range or negative. -/
 def idx {α : Type} (l : List α) (i : Int) : Option α :=
   if i < 0 then none else l[i.toNat]?
